@@ -89,6 +89,11 @@ CLAIMED = {
         text="Unbounded theorems over any field: the exact normal form used to recognise shapes (first significant vector to (1,0), first significant y to 1) is invariant under every rotation and reflection (c^2+s^2=1), norms that drive the significance thresholds are preserved, translations do not enter; on the cache model reuse is taken whenever a donor with the same normal form exists and the recogniser returns a representable affine, and only tolerance -1 disables it. End to end: fonts built from a few structurally different base shapes and congruent copies (exact grid isometries and generic angles) in glyf_colr_1, glyf_colr_0 and picosvg: every copy must draw from one outline glyph / one <path>, and with -1 all are separate. Known finding F14: picosvg snaps the normal form to multiples of tolerance/10, so copies whose normal form has a coordinate on a rounding boundary are missed.",
         ref="DESIGN.md 8 C19",
     ),
+    "C20": dict(
+        technique="machine-checked proof in Coq (flag > file > default for every option type; the colour-format table regenerated from the live modules equals the documented one, by vm_compute) + real CLI builds observing each option in the written font",
+        text="Theorems: the resolution rule picks the flag if given, else the file value, else the default; the live table of the 13 colour formats (input kinds, OT-SVG-ness, outline flavour, has_* predicates) is exactly the documented table - re-checked against the source on every run (this theorem failed on the unchanged tree and exposed is_ot_svg being always False: fixed, F15). End to end through the real CLI: every observable option is given by file, by flag and by both with different values, and its observable is read from the written font (name, head, hhea, OS/2 incl. fsSelection bit 7, hmtx, post, table tags and COLR version, file name and outline flavour, ClipList edges, CBLC/CBDT strike size, SVG text, glyph placement under --transform, reuse on/off, clipping) or from build.ninja for compression options; a build without options must show the documented defaults; pairs of configurations in one invocation must equal the fonts built alone. Found and fixed: picosvg keyed by source (F5), --reuse_tolerance -1 crashed the CLI (F16); known: bitmap intermediates keyed by name (F5b).",
+        ref="DESIGN.md 8 C20",
+    ),
 }
 
 NOT_YET = "check not built yet (work in progress; see DESIGN.md section 13)"
